@@ -101,7 +101,7 @@ def run(chk):
                 if bad:
                     chk.violation(f'thread-dependence-{"T>H" if T > H else ("divisible" if H % T == 0 else "ragged")}',
                                   f'{desc}: Nthread={T} differs from Nthread=1: {bad}', dict(H=H, S=S, T=T, seed=chk.seed))
-            if si == 3 and ti == 0:
+            if H >= 5 and len(chk.cov['samples']) < 2:
                 chk.sample(dict(H=H, particles=npart, tracers=S, ngal={t: len(ref[t]['x']) for t in S}, ncent={t: int(ref[t]['Ncent']) for t in S}))
     chk.part('gen_gal_cat_threads', runs=nrun)
     # ---- fast_concatenate against numpy
